@@ -310,6 +310,9 @@ def gen(tier, seed):
                 add("gkin_%s_%d" % (tag, bc), "c15-graph-kinetics", "graph_kinetics(%d, %d, %d, %d, i)" % (w, h, d, bc), ["pre: 0 <= i < %d" % n],
                     "the Python rate of change on grid_to_graph(grid) equals the one on the grid (diffusion from a one-hot state in every cell; %dx%dx%d, boundary combination %d; a periodic axis of length 2 is outside the property for the Python functions)" % (w, h, d, bc),
                     "i: int", timeout=240, viol="the rate law on the graph made from a grid differs from the rate law on the grid")
+            add("gridkin_%s_%d" % (tag, bc), "c15-grid-kinetics", "grid_kinetics_ref(%d, %d, %d, %d, i)" % (w, h, d, bc), ["pre: 0 <= i < %d" % n],
+                "the Python rate of change on the grid equals the law summed over the six directions of the specification relation, incl. the double contact of a periodic axis of length 2 (%dx%dx%d, boundary combination %d)" % (w, h, d, bc),
+                "i: int", timeout=240, viol="the kinetics functions do not use the grid's neighbour relation")
             add("nbr_%s_%d" % (tag, bc), "c15-neighbor-relation", "neighbor_relation(%d, %d, %d, %d, i, j)" % (w, h, d, bc), ["pre: 0 <= i < %d and 0 <= j < %d" % (n, n)],
                 "are_neighbors is symmetric and equals the specification relation (%dx%dx%d, boundary combination %d, both cells symbolic)" % (w, h, d, bc), "i: int, j: int", timeout=240)
             add("nq_%s_%d" % (tag, bc), "c15-neighbor-query", "neighbor_query(%d, %d, %d, %d, i)" % (w, h, d, bc), ["pre: 0 <= i < %d" % n],
